@@ -480,3 +480,53 @@ fn c11_k_sixty_year_next() {
   assert!(r.get_sixty_cycle().get_index() as i64 == spec::emod((y + n) as i64 - 4, 60), "year pillar == (year - 4) mod 60");
   kani::cover!(y == 0 && n == -1, "sixty_year_next reachable (into year -1)");
 }
+
+// ---- C19: the getters that did not finish before the drop-glue and folding findings (DESIGN 8.2) ----------------------
+// hidden middle / residual stems: Option-valued; the Option is forgotten after reading it (its drop glue is the blow-up)
+macro_rules! branch_opt_attr { ($name:ident, $get:expr, $want:expr, $msg:expr) => {
+  #[kani::proof]
+  #[kani::stub(alloc::fmt::format, stub_format)]
+  fn $name() {
+    let b: isize = kani::any();
+    kani::assume(b >= 0 && b < 12);
+    let e = EarthBranch::from_index(b);
+    let r: Option<HeavenStem> = ($get)(&e);
+    let got: i64 = match &r { Some(h) => h.get_index() as i64, None => -1 };
+    core::mem::forget(r);
+    assert!(got == ($want)(b as i64), $msg);
+    kani::cover!(b == 11, "reachable");
+  }
+} }
+branch_opt_attr!(c19_k_branch_hide_middle, |e: &EarthBranch| e.get_hide_heaven_stem_middle(), |b| spec::hidden_stems(b).1, "hidden stem (middle), -1 = none");
+branch_opt_attr!(c19_k_branch_hide_residual, |e: &EarthBranch| e.get_hide_heaven_stem_residual(), |b| spec::hidden_stems(b).2, "hidden stem (residual), -1 = none");
+
+// stem polarity and the twelve growth stages: the polarity test compares to_string() values, which CBMC folds only for a
+// concrete stem - one harness per stem, the branch stays symbolic
+// the Display impl of YinYang (`write!(f, "{}", "阴")`) is replaced by a plain write_str of the same text: the formatting
+// machinery behind `write!` is what makes `a.to_string() == b.to_string()` intractable
+fn yy_fmt(v: &YinYang, f: &mut core::fmt::Formatter<'_>) -> core::fmt::Result { f.write_str(match v { YinYang::YIN => "阴", YinYang::YANG => "阳" }) }
+macro_rules! stem_stage { ($name:ident, $s:expr) => {
+  #[kani::proof]
+  #[kani::stub(alloc::fmt::format, stub_format)]
+  #[kani::stub(<YinYang as std::fmt::Display>::fmt, yy_fmt)]
+  fn $name() {
+    let s: isize = $s; let b: isize = kani::any();
+    kani::assume(b >= 0 && b < 12);
+    let h = HeavenStem::from_index(s);
+    assert!(yy(&h) == spec::emod(s as i64, 2), "stems 甲丙戊庚壬 are Yang, 乙丁己辛癸 Yin");
+    let t = h.get_terrain(EarthBranch::from_index(b));
+    assert!(t.get_index() as i64 == spec::growth_stage(s as i64, b as i64), "growth stage: Yang stems run forward from their birth branch, Yin stems backward");
+    kani::cover!(b == 11, "reachable");
+  }
+} }
+stem_stage!(c19_k_stem_stage_0, 0);
+stem_stage!(c19_k_stem_stage_1, 1);
+stem_stage!(c19_k_stem_stage_2, 2);
+stem_stage!(c19_k_stem_stage_3, 3);
+stem_stage!(c19_k_stem_stage_4, 4);
+stem_stage!(c19_k_stem_stage_5, 5);
+stem_stage!(c19_k_stem_stage_6, 6);
+stem_stage!(c19_k_stem_stage_7, 7);
+stem_stage!(c19_k_stem_stage_8, 8);
+stem_stage!(c19_k_stem_stage_9, 9);
+// (with a symbolic stem the same harness does not finish in 8 min: one harness per stem it is.)
